@@ -59,8 +59,62 @@ def check_average_reward(s, rule="C19.5"):
                        and (nm == "rollout_while" or m.get("max_steps") == ("param", "max_steps")))
                 s.ob(rule, con8 + f"[{nm}]", okr, "the episode helper receives (env, policy, key=episode key, deterministic, max_steps)", loc8,
                      key="episode-args", detail=show(r, maxlen=200))
+                # which helper runs is decided by `max_steps is None` alone: the uncapped loop exactly when no cap was given (a truthiness test
+                # would send a cap of 0 - "stop before the first step" - to the uncapped loop)
+                mp = ("param", "max_steps")
+                tests = [(t_, v_) for t_, v_ in list(p8.conds) + list(ep.conds) if mp in set(walk(t_))]
+                none_case = [v_ if t_[1] == "Is" else not v_ for t_, v_ in tests if isinstance(t_, tuple) and t_[0] == "cmp" and t_[1] in ("Is", "IsNot") and t_[2] == mp and t_[3] == NONE]
+                okc = len(tests) == 1 and len(none_case) == 1 and none_case[0] == (nm == "rollout_while")
+                s.ob(rule, con8 + f"[{nm}]", okc, "the uncapped loop runs exactly when max_steps is None, the capped scan for every given cap (0 included)", loc8, key="cap-dispatch",
+                     detail="; ".join(f"{show(t_, maxlen=60)} = {v_}" for t_, v_ in tests), necessary_for="each episode ends at its first terminal or truncated state or at the step cap")
     if kinds != {"rollout_while", "rollout_scan"}:
         raise AnalysisError(f"{con8}: expected both helpers to be reachable, got {kinds}")
+
+
+def check_iteration_context(s, rule="C19.8"):
+    """what an iteration shows its observers: on_iteration receives the callback state carried so far, the step statistics of the step
+    state collected in THIS iteration (the logger reads its per-environment step counts and episode statistics from there), the
+    iteration counter after the increment and the freshly trained policy / optimiser state - i.e. the fields of the state the
+    iteration returns, not those of the state it started from."""
+    from .util import merge_nodes
+    self_ = ("param", "self")
+    state = ("param", "state")
+    n = 0
+    for cls in ("AbstractOnPolicyAlgorithm", "AbstractOffPolicyAlgorithm", "DQN", "SAC"):
+        b = s.builder(inline={"next", "with_callback_states"})
+        nz = Normalizer(b)
+        loc = s.loc(cls, "iteration")
+        for p in live(s.paths(b, cls, "iteration")):
+            r = p.ret
+            S = r[2][0] if isinstance(r, tuple) and r and r[0] == "call" and r[1] == ("attr", self_, "per_iteration") and len(r[2]) == 1 else r
+            if isinstance(S, tuple) and S and S[0] == "ite":
+                S = merge_nodes(S[1], S[2], S[3])
+            if not (isinstance(S, tuple) and S and S[0] == "update" and S[1] == state):
+                continue  # the shape of the successor state is C10.2's business
+            f = fields(S)
+            calls = [x for x in walk(S) if isinstance(x, tuple) and x and x[0] == "call" and x[1] == ("attr", ("param", "callback"), "on_iteration")]
+            con = f"{cls}.iteration"
+            s.ob(rule, con, len(set(calls)) == 1, "one on_iteration call per iteration", loc, key="one-on-iteration", detail=str(len(set(calls))))
+            if len(set(calls)) != 1:
+                continue
+            n += 1
+            c = calls[0]
+            ctx = c[2][0] if c[2] else dict((k_, v_) for k_, v_ in c[3] if k_).get("ctx")
+            cf = fields(ctx) if isinstance(ctx, tuple) and ctx and ctx[0] == "record" else {}
+            cf = {k_[4:] if k_.startswith("arg:") else k_: v_ for k_, v_ in cf.items()}
+            ss = f.get("step_state")
+            wants = {"state": ("attr", state, "callback_state"),
+                     "step_state": ("attr", ss, "callback_state") if ss is not None else None,
+                     "policy": f.get("policy"), "opt_state": f.get("opt_state"),
+                     "iteration_count": f.get("iteration_count")}
+            for nm, want in wants.items():
+                got = cf.get(nm)
+                ok = got is not None and want is not None and nz.canon(got) == nz.canon(want)
+                s.ob(rule, f"{con}.ctx.{nm}", ok, f"on_iteration sees `{nm}` of the state this iteration returns" if nm != "state" else "on_iteration receives the callback state carried so far", loc,
+                     key=f"iteration-context-{nm}", detail=f"got {show(got if got is not None else NONE, maxlen=140)}; wanted {show(want if want is not None else NONE, maxlen=140)}",
+                     necessary_for="log records reach the backend in iteration order with the cumulative number of environment steps (read from the step state just collected)")
+    if n == 0:
+        raise AnalysisError("C19.8: no iteration with an on_iteration call found")
 
 
 def check_callback_list(s, rule):
@@ -400,7 +454,8 @@ cum1 = cum + env.reward(s, pa[1], s1, key=K)
     if seen != {True, False}:
         raise AnalysisError(f"{con7}: expected deterministic and stochastic cases")
     check_average_reward(s)
+    check_iteration_context(s)
     from .util import no_late_binding
     no_late_binding(s, "C19.4", ("lerax.callback", "lerax.benchmark"), necessary_for="every record reaches the backend it was meant for (a helper defined in the backend loop must not read the loop variable late)")
-    for r_, n in (("C19.1", 8), ("C19.2", 4), ("C19.3", 16), ("C19.4", 6), ("C19.5", 20)):
+    for r_, n in (("C19.1", 8), ("C19.2", 4), ("C19.3", 16), ("C19.4", 6), ("C19.5", 20), ("C19.8", 40)):
         s.floor(r_, n)
